@@ -24,6 +24,8 @@ var atoms = []string{
 	`q = "AA" ;`, `start = AA "AA" ;`,
 	// patterns with a blank at an edge, an escaped slash, a literal with escapes: the value is the text as written
 	`AA = / x/`, `BB = /x /`, `BB = /a\/b /`, `AA = "\"x\\"`,
+	// valid patterns that match only the empty text, or hold a piece that does
+	`AA = /x{0}/`, `BB = /(y|z){0,0}yy/`,
 }
 
 type renaming struct {
@@ -326,8 +328,9 @@ func checkText(r *ev.Run, text string) {
 				}
 			}()
 			if _, _, err := res.Spec.DFA(); err != nil {
-				// a definition conflict is C03's business, an invalid pattern is ours
-				if strings.Contains(err.Error(), "invalid regular expression") {
+				// a definition conflict is C03's business; any other refusal to build the scanner automaton rejects the
+				// specification on account of one of its patterns
+				if !strings.Contains(err.Error(), "conflicting definitions") {
 					rejected, msg = true, err.Error()
 				}
 			}
